@@ -39,15 +39,9 @@ Definition spec_decrypt (a : algo) (key iv ct : bytes) : string :=
   else if ctr_in_domain iv ct then "OK:" +++ show_bytes (ctr key iv ct)
   else "-".
 
-(* classes of inputs on which the unrepaired library is known to deviate *)
-Definition known_class (enc : bool) (a : algo) (key iv data : bytes) : string :=
-  if negb (sizes_ok a key iv) then (if cbc_mode a then "-" else "ctr-wrong-key-iv-size")
-  else if negb enc && cbc_mode a then
-    match cbc_decrypt key iv data, cbc_decrypt_lax key iv data with
-    | None, Some _ => "pkcs7-pad-over-16"
-    | _, _ => "-"
-    end
-  else "-".
+(* Both defects once seen here are repaired in the library (KNOWN_FINDINGS.txt: fixed d992bd9, d6b6852), so no
+   input belongs to a known-finding class: a recurrence is a violation. *)
+Definition known_class (enc : bool) (a : algo) (key iv data : bytes) : string := "-".
 
 (* encrypt, then decrypt the result *)
 Definition impl_roundtrip (a : algo) (key iv msg : bytes) : string :=
